@@ -165,6 +165,31 @@ def describe(case, res, extra=""):
         extra, case["ops"], case["truth"], res.text[res.text.index("import abc") + 11:].strip()[:3000])
 
 
+def d23_shape(program):
+    """Finding D23: a class with >=2 bases in a program where some class defines __new__ and some class with invariants
+    has no __init__ on its own path (its __new__ is replaced by the library and then shadows the other base's)."""
+    cl = program.get("classes", [])
+    if not any(len(c.get("bases", [])) >= 2 for c in cl):
+        return False
+    if not any(m["kind"] == "new" for c in cl for m in c.get("members", [])):
+        return False
+
+    def anc(ci):
+        out, stack = set(), [ci]
+        while stack:
+            k = stack.pop()
+            if k not in out:
+                out.add(k)
+                stack += cl[k].get("bases", [])
+        return out
+
+    for ci, c in enumerate(cl):
+        a = anc(ci)
+        if any(cl[k].get("invs") for k in a) and not any(m["kind"] == "init" for k in a for m in cl[k]["members"]):
+            return True
+    return False
+
+
 def struct_sig(case):
     """Small structural signature of a case for bucketing."""
     p = case["program"]
